@@ -108,7 +108,14 @@ def _shape(n1, n2, r1, r2, **kw):
     return r, c
 
 
-def _reshape_array_as_excel(value, base_shape):
+def _reshape_array_as_excel(value, base_shape, fit=False):
+    shape = tuple(base_shape)
+    if fit and np.ndim(value) == 2 and shape not in ((1, 1), np.shape(value)):
+        # Formula result: a single row/column repeats, surplus elements are
+        # dropped, and cells that are not reached receive #N/A.
+        res, r, c = _init_reshape(shape, value)
+        res[:r, :c] = np.asarray(value, object)[:shape[0], :shape[1]]
+        return res
     try:
         return np.reshape(value, base_shape)
     except ValueError:
@@ -137,7 +144,7 @@ class Ranges:
     def format_range(*args, **kwargs):
         return range2parts(*args, **kwargs)
 
-    def set_value(self, rng, value=sh.EMPTY):
+    def set_value(self, rng, value=sh.EMPTY, fit=False):
         self._value = sh.NONE
         self.ranges += rng,
         if value is not sh.EMPTY:
@@ -148,7 +155,7 @@ class Ranges:
                     value = [[value]]
                 value = np.asarray(value, object)
             shape = _shape(**rng)
-            value = _reshape_array_as_excel(value, shape)
+            value = _reshape_array_as_excel(value, shape, fit)
             self.values[rng['name']] = (rng, value)
 
         return self
